@@ -23,8 +23,7 @@ from vp.unitgen import build, carg_lit, rval_lit, run_val
 
 STATIC = ["convert_spec", "convert_refuses_iff", "convert_compose", "convert_inverse", "convert_linear_scale",
     "convert_linear_add", "convert_scale_verdict", "convert_self_si", "convert_to_si_value", "convert_si_unit_roundtrip",
-    "evaluate_preserves_value", "celsius_roundtrip", "kelvin_roundtrip", "celsius_quantity_roundtrip_partial",
-    "celsius_quantity_roundtrip_refuted"]
+    "evaluate_preserves_value", "celsius_roundtrip", "kelvin_roundtrip", "celsius_quantity_roundtrip"]
 
 BASE_DIMS = ["length", "mass", "time", "current", "temperature", "amount_of_substance", "luminous_intensity"]
 
@@ -86,12 +85,17 @@ def live_tables(ctx):
     off_fr = Fraction(off)
     om, oe = float_cert(float(off)) if off else (0, 0)
     kel = u.kelvin
+    kvc = qx.val_class(kel.scale_factor)
+    if kvc[0] != "Q":
+        raise qx.Unsupported(f"kelvin scale factor {kel.scale_factor!r}")
     text = (f"Definition live_si_table : list (string * si_row) :=\n  {si_lit}.\n"
         "Definition live_tbl : list si_row := map snd live_si_table.\n"
         f"Definition live_prefixes : list (string * Q * option (Z * Z)) :=\n  {p_lit}.\n"
         f"Definition live_off : Q := {qx.q_lit(off_fr)}.\n"
         f"Definition live_off_cert : Z * Z := ({z_lit(om)}, {z_lit(oe)}).\n"
-        f"Definition live_kelvin : val * dim := ({qx.val_lit(qx.val_class(kel.scale_factor))}, {qx.dim_lit(qx.dim_vec(kel.dimension))}).\n")
+        f"Definition live_kelvin_scale : Q := {qx.q_lit(kvc[1])}.\n"
+        f"Definition live_kelvin : val * dim := (VQ live_kelvin_scale, {qx.dim_lit(qx.dim_vec(kel.dimension))}).\n"
+        f"Definition live_temperature : dim := {qx.dim_lit(qx.dim_vec(u.temperature))}.\n")
     py = {"si_rows": rows, "prefix_rows": prows, "offset": off_fr}
     return text, py
 
@@ -535,8 +539,6 @@ def stream_eval(ctx, n):
         obs_q = qx.cres_of_impl(lambda e=expr: (lambda q: (q.scale_factor, q.dimension))(Quantity(e)))
         if obs_n[0] == "err" and obs_n[1] == qx.E_OTHER:
             continue
-        if obs_q[0] == "ok" and obs_q[1][0] == "Zoo":
-            continue      # Quantity(zoo): a division by zero, outside the property (and outside CollectQ's quantity_ctor)
         lit = f"({a_lit}, {q_lit}, {rval_lit(obs_n)}, {qx.cres_lit(obs_q)})"
         cases.append({"lit": lit, "leaves": lsrc, "recipe": recipe, "expr": str(expr), "srepr": sympy.srepr(expr), "obs": obs_n,
             "obs_q": obs_q, "expr_obj": expr})
@@ -567,9 +569,14 @@ def stream_celsius(ctx, n, off_fr):
     cases, float_failures = [], []
     n_float = 0
     off = float(off_fr)
+    # boundary temperatures, always present: absolute zero (the 0 K quantity must keep its dimension), its neighbours, +-0
+    boundary = [-off, math.nextafter(-off, 0.0), math.nextafter(-off, -math.inf), 0.0, -0.0, off, -2 * off]
     while len(cases) < n:
         r = rng.random()
-        if r < 0.35:
+        if boundary:
+            c = boundary.pop(0)
+            exact = Fraction(c) + off_fr == Fraction(c + off)
+        elif r < 0.35:
             # exact stream: c and c + off are multiples of 2^-44 in [256, 512): every float operation is exact
             c = rng.randrange(int(-17 * 2**44), int(238 * 2**44)) / 2**44
             exact = True
@@ -579,7 +586,7 @@ def stream_celsius(ctx, n, off_fr):
             exact = False
         kel = to_kelvin(Celsius(c))
         back = from_kelvin(kel).value
-        ex = exact and Fraction(c) + off_fr == Fraction(kel)
+        ex = exact and Fraction(c) + off_fr == Fraction(kel) and Fraction(kel) - off_fr == Fraction(back)
         # binary64 round trip (a TEST, not a theorem): |c' - c| <= 2 ulp(max(|c|, offset))
         n_float += 1
         if abs(back - c) > 2 * math.ulp(max(abs(c), off)):
@@ -620,8 +627,9 @@ def celsius_check_text():
         "    (if ex then Qeq_bool (to_kelvin live_off t) k && Qeq_bool (from_kelvin live_off k) b "
         "     else Qle_bool (Qabs (to_kelvin live_off t - k)) ((1 # 1000000000000000) * (Qabs t + live_off)) && "
         "          Qle_bool (Qabs (from_kelvin live_off k - b)) ((1 # 1000000000000000) * (Qabs k + live_off))) && "
-        "    (let mq := quantity_ctor (QMul [QNum (VQ k); QQty (fst live_kelvin) (snd live_kelvin)]) None in "
+        "    (let mq := quantity_ctor (QMul [QNum (VQ k); QQty (fst live_kelvin) (snd live_kelvin)]) (Some live_temperature) in "
         "     cres_eqb mq oq && "
+        "     (if ex then cres_eqb (to_kelvin_quantity live_off (fst live_kelvin) (snd live_kelvin) live_temperature t) oq else true) && "
         "     match mq with Ok (sv, dv) => rval_close ex (from_kelvin_quantity live_off (fst live_kelvin) (snd live_kelvin) sv dv) ob "
         "                 | Err _ => true end) "
         "| inr ((sv, dv), o) => rval_close false (from_kelvin_quantity live_off (fst live_kelvin) (snd live_kelvin) sv dv) o end")
@@ -667,6 +675,11 @@ def table_lemmas():
           "exists N', convert_to_si live_tbl (CQ (VQ S) D) = Ok (VQ N') /\\ N' == N",
           "intros e S D N H1 H2 H3. eapply evaluate_preserves_value; try eassumption. vm_compute. reflexivity.",
           "evaluate_preserves_value instantiated at the live table"),
+        L("celsius_quantity_roundtrip_live",
+          "forall c, exists sv dv, to_kelvin_quantity live_off (VQ live_kelvin_scale) (snd live_kelvin) live_temperature c = Ok (sv, dv) /\\ "
+          "exists c', from_kelvin_quantity live_off (VQ live_kelvin_scale) (snd live_kelvin) sv dv = Ok (VQ c') /\\ c' == c",
+          "intros c. apply celsius_quantity_roundtrip; [intros H; vm_compute in H; discriminate H | vm_compute; reflexivity].",
+          "celsius_quantity_roundtrip at the live kelvin unit, units.temperature and offset (total: absolute zero included)"),
         L("celsius_roundtrip_live", "forall c, from_kelvin live_off (to_kelvin live_off c) == c",
           "intros c. apply celsius_roundtrip.", "celsius_roundtrip instantiated at the live offset"),
     ]
@@ -911,7 +924,8 @@ def run(ctx):
         c = tcases[i]
         if c["kind"] == "celsius":
             found = abs(Fraction(c["kelvin"]) - Fraction(c["c"]) - Fraction(27315, 100)) > Fraction(1, 10**9) * (1 + abs(Fraction(c["c"]))) \
-                or abs(c["back"] - c["c"]) > 2 * math.ulp(max(abs(c["c"]), 273.15))
+                or abs(c["back"] - c["c"]) > 2 * math.ulp(max(abs(c["c"]), 273.15)) \
+                or c["obs_b"][0] == "err" or abs(float(c["obs_b"][1][1]) - c["c"]) > 4 * math.ulp(max(abs(c["c"]), 273.15))
             ctx.violation(f"C07:celsius:{c['c']!r}", f"Celsius helpers at {c['c']!r}: kelvin {c['kelvin']!r}, back {c['back']!r}",
                 {"kind": "disagreement", "stream": "celsius", "celsius": repr(c["c"]), "observed": {"to_kelvin": repr(c["kelvin"]),
                  "from_kelvin": repr(c["back"]), "to_kelvin_quantity": str(c["obs_q"][:3]), "from_kelvin_quantity": str(c["obs_b"][:2])},
@@ -931,7 +945,7 @@ def run(ctx):
         ctx.sample({"stream": "celsius", "celsius": repr(tcases[0].get("c")), "kelvin": repr(tcases[0].get("kelvin")), "back": repr(tcases[0].get("back"))})
     n_bad += len(bad_t)
 
-    # ---- the refuted part, replayed on the real code ------------------------------------------------
+    # ---- regression guard for the absolute-zero repair (d2bd6de): the concrete input, reported by name ----------
     replay_absolute_zero(ctx, py["offset"])
 
     ctx.coverage["disagreements"] = n_bad
@@ -945,7 +959,7 @@ def run(ctx):
 
 
 def replay_absolute_zero(ctx, off_fr):
-    """celsius_quantity_roundtrip_refuted, replayed: at absolute zero the quantity helpers are not inverse."""
+    """celsius_quantity_roundtrip at its boundary: the quantity helpers must be inverse at absolute zero too."""
     from symplyphysics.core.symbols.celsius import Celsius, to_kelvin_quantity, from_kelvin_quantity  # pylint: disable=import-outside-toplevel
     c = -float(off_fr)
     try:
@@ -961,7 +975,7 @@ def replay_absolute_zero(ctx, off_fr):
         ctx.violation("C07:celsius:absolute-zero-quantity",
             f"from_kelvin_quantity(to_kelvin_quantity(Celsius({c!r}))) -> {observed} (expected {c!r})",
             {"kind": "violation", "stream": "celsius", "celsius": repr(c), "observed": observed, "expected": repr(c),
-             "theorem_or_tie": "celsius_quantity_roundtrip_refuted (Coq witness c = -offset) replayed on the implementation"}, True)
+             "theorem_or_tie": "celsius_quantity_roundtrip / ex_celsius_absolute_zero (c = -offset) checked on the implementation"}, True)
 
 
 # ---------------------------------------------------------------------------------------------
